@@ -1,7 +1,9 @@
 /-
   C19 — umbrella module: the conditional theorems and their discharge (Props/C19.lean,
-  Props/C19Final.lean) together with the termination results (Props/C19Term.lean).
-  `checks.d/C19.json` audits the theorems of all three through this module.
+  Props/C19Final.lean) together with the termination results (Props/C19Term.lean: pure model,
+  injective id oracle; Props/C19Mgr.lean: the stateful manager model with its evolving ids).
+  `checks.d/C19.json` audits the theorems of all of them through this module.
 -/
+import SmtModel.Props.C19Mgr
 import SmtModel.Props.C19Term
 import SmtModel.Props.C19Final
